@@ -21,6 +21,7 @@ type LoopSpec struct {
 	Invariants []*Clause
 	Decreases  *Clause
 	Hints      []*Clause // definitional instances (unfold(...)) assumed in the loop
+	InitHints  []*Clause // the same, assumed on loop entry (before the inv-init checks)
 }
 
 type Contract struct {
@@ -30,6 +31,7 @@ type Contract struct {
 	Props    []string
 	Requires []*Clause
 	Ensures  []*Clause
+	PostHints []*Clause // `posthint unfold(...)`: definitional instances assumed before the ensures are checked
 	Modifies []*Clause
 	Loops    map[int]*LoopSpec
 	Calls    []*CallSpec
@@ -366,6 +368,15 @@ func (e *Engine) LoadContractFile(file, pkgPath string) error {
 				case "modifies":
 					cur.Modifies = append(cur.Modifies, c)
 				}
+			case "posthint":
+				c, err := parseClause(rest)
+				if err != nil {
+					return fail(err)
+				}
+				if err := checkHint(c.Expr); err != nil {
+					return fail(err)
+				}
+				cur.PostHints = append(cur.PostHints, c)
 			case "loop":
 				w2, r2 := splitWord(rest)
 				n, err := strconv.Atoi(w2)
@@ -392,6 +403,11 @@ func (e *Engine) LoadContractFile(file, pkgPath string) error {
 						return fail(err)
 					}
 					ls.Hints = append(ls.Hints, c)
+				case "inithint":
+					if err := checkHint(c.Expr); err != nil {
+						return fail(err)
+					}
+					ls.InitHints = append(ls.InitHints, c)
 				default:
 					return fail(fmt.Errorf("loop clause %q", w3))
 				}
